@@ -370,7 +370,7 @@ Proof.
     set (x := if Z.land index 1 =? 0 then (v, p) else (p, v)) in *.
     set (y := if Z.land index 1 =? 0 then (v', p') else (p', v')) in *.
     destruct (pair_eqb x y) eqn:Exy.
-    + apply pair_eqb_spec in Exy. rewrite Exy. apply IH; [simpl in HL; lia|rewrite <- Exy in HV; exact HV|].
+    + apply pair_eqb_spec in Exy. rewrite Exy in HV. rewrite Exy. apply IH; [simpl in HL; lia|exact HV|].
       right. intros ->. subst x y.
       destruct (Z.land index 1 =? 0); injection Exy as -> ->; destruct HN as [HN|HN]; congruence.
     + destruct (D_eqb (merge (fst x) (snd x)) (merge (fst y) (snd y))) eqn:Em.
